@@ -81,7 +81,11 @@ func init() {
 		libFrames[n] = bufK
 	}
 	bufNil := func(x *Exec, fr *Frame, st *State, b Term, what string, pos token.Pos) {
-		x.oblige(fr, st, "nil", "buffer:"+x.srcText(fr.fn, pos, isCall), "nil *bytes.Buffer in "+what, pos, Neq(b, IntLit(0)), nil)
+		txt := x.srcText(fr.fn, pos, isCall)
+		x.oblige(fr, st, "nil", "buffer:"+txt, "nil *bytes.Buffer in "+what, pos, Neq(b, IntLit(0)), nil)
+		if what != "Len" && what != "Cap" {
+			x.oblige(fr, st, "owned", "use:"+txt, "buffer is owned by the caller when used (not yet returned to the pool): "+txt, pos, x.bufOwned(st, b), []string{"C14"})
+		}
 	}
 	regModel("(*bytes.Buffer).Len", func(x *Exec, fr *Frame, st *State, a []Value, pos token.Pos, rt types.Type) (Value, bool) {
 		b := tOf(a[0])
@@ -182,6 +186,8 @@ func init() {
 			return nil, false
 		}
 		ref := x.newRef(fr)
+		x.assume(st, Not(x.bufOwned(st, ref)))
+		x.setBufOwned(st, ref, TTrue)
 		x.setBufLen(st, ref, s.Len)
 		return VTerm{ref}, true
 	})
@@ -192,6 +198,8 @@ func init() {
 		// pools never hold typed-nil pointers (every Put in the package passes a non-nil object)
 		r := x.fresh(rt, "poolget").(VIface)
 		x.vc.Assert(Implies(Neq(r.Tag, IntLit(0)), Neq(r.Val, IntLit(0))))
+		x.poolVals[r.Tag.S] = true
+		x.vc.assumption("sync.Pool: Get returns a value of the type the pool's New function and the package's Put calls supply (type assertions on it succeed)")
 		return r, true
 	})
 	regModel("(*sync.Pool).Put", func(x *Exec, fr *Frame, st *State, a []Value, pos token.Pos, rt types.Type) (Value, bool) {
@@ -221,4 +229,52 @@ func init() {
 // writerEffect: a library function wrote to an io.Writer value.
 func (x *Exec) writerEffect(fr *Frame, st *State, w Value, pos token.Pos) {
 	x.homeMethodEffect(st, w, "Write")
+}
+
+// Ghost ownership of pooled buffers (C14): the package's bufferPool wrapper hands out buffers that
+// nobody else owns and takes back only buffers the caller owns. The bodies of Get/Put/Wrap are
+// verified against their (non-ghost) contracts separately; at call sites this model adds the
+// linear-ownership bookkeeping that sync.Pool's contract implies.
+func init() {
+	const pfx = "(*connectrpc.com/vanguard.bufferPool)."
+	libFrames[pfx+"Get"] = map[string]Sort{kBufLen: arrOf(SInt), kBufOwned: arrOf(SBool)}
+	libFrames[pfx+"Put"] = map[string]Sort{kBufOwned: arrOf(SBool)}
+	libFrames[pfx+"Wrap"] = map[string]Sort{kBufLen: arrOf(SInt), kBufOwned: arrOf(SBool)}
+	libFrames["bytes.NewBuffer"] = map[string]Sort{kBufLen: arrOf(SInt), kBufOwned: arrOf(SBool)}
+	regModel(pfx+"Get", func(x *Exec, fr *Frame, st *State, a []Value, pos token.Pos, rt types.Type) (Value, bool) {
+		x.nilCheck(fr, st, tOf(a[0]), pos)
+		r := x.vc.Fresh("pooled", SInt)
+		x.vc.Assert(Gt(r, IntLit(0)))
+		x.assume(st, Not(x.bufOwned(st, r))) // not owned by anybody at the time of the call
+		x.setBufOwned(st, r, TTrue)
+		x.setBufLen(st, r, IntLit(0))
+		return VTerm{r}, true
+	})
+	regModel(pfx+"Put", func(x *Exec, fr *Frame, st *State, a []Value, pos token.Pos, rt types.Type) (Value, bool) {
+		x.nilCheck(fr, st, tOf(a[0]), pos)
+		b := tOf(a[1])
+		txt := x.srcText(fr.fn, pos, isCall)
+		x.oblige(fr, st, "nil", "buffer:"+txt, "nil *bytes.Buffer returned to the pool: "+txt, pos, Neq(b, IntLit(0)), nil)
+		x.oblige(fr, st, "owned", txt, "buffer returned to the pool is owned by the caller (no double release, no release of a shared buffer): "+txt, pos, x.bufOwned(st, b), []string{"C14"})
+		x.setBufOwned(st, b, TFalse)
+		return VStruct{}, true
+	})
+	regModel(pfx+"Wrap", func(x *Exec, fr *Frame, st *State, a []Value, pos token.Pos, rt types.Type) (Value, bool) {
+		orig := tOf(a[2])
+		data, ok := a[1].(VSlice)
+		if !ok {
+			return nil, false
+		}
+		x.oblige(fr, st, "nil", "buffer:Wrap", "nil *bytes.Buffer passed to Wrap", pos, Neq(orig, IntLit(0)), nil)
+		fresh := x.newRef(fr)
+		x.assume(st, Not(x.bufOwned(st, fresh))) // a newly allocated buffer was never owned
+		same := x.vc.Fresh("wrap.same", SBool)
+		r := x.vc.Name(Ite(same, orig, fresh), "wrapped")
+		// when a new buffer is returned the original is dropped for the garbage collector:
+		// nobody owns (or may use) it any more
+		x.setBufOwned(st, orig, TFalse)
+		x.setBufOwned(st, r, TTrue)
+		x.setBufLen(st, r, data.Len)
+		return VTerm{r}, true
+	})
 }
